@@ -121,32 +121,28 @@ Theorem C04_survivor_failed_refuted_tries :
 Proof. exact (conj w_nlen_pos (conj t_init_ok t_run)). Qed.
 Print Assumptions C04_survivor_failed_refuted_tries.
 
-(* survivor_not_failed, positive part (names not empty): whatever the other
-   processes do and whoever is killed, a call of newCounter fails only
-   - for its own over-long name (FTooLong), or
+(* survivor_not_failed, positive part: whatever the other processes do and
+   whoever is killed, a call of newCounter fails only
+   - for its own empty or over-long name (FEmpty, FTooLong), or
    - in the stale-mapping class of the known finding: the duplicate walk met
      an entry beyond the mapping (FBeyond) or ten remaps did not catch up
      (FTries), or
    - at the model's 4 GiB offset bound (FRange);
    in particular the cycle guards, writeEntryAt's bounds test, extend's
    length test and the two "corrupt limit" tests never fire. *)
-Theorem C04_failures_classified : forall bucket nlen H,
-  (forall nm, 1 <= nlen nm) ->
-  forall st0 sched, init_ok bucket nlen H st0 ->
+Theorem C04_failures_classified : forall bucket nlen H st0 sched, init_ok bucket nlen H st0 ->
   forall i t e, nth_error (snd (run bucket nlen H sched st0)) i = Some t -> In (RFail e) (t_res t) ->
-    e = FTooLong \/ e = FBeyond \/ e = FTries \/ e = FRange.
+    e = FEmpty \/ e = FTooLong \/ e = FBeyond \/ e = FTries \/ e = FRange.
 Proof. exact failures_classified. Qed.
 Print Assumptions C04_failures_classified.
 
-(* nonblocking (names not empty).  phi (Proofs/FileConcProgress.v) bounds the
+(* nonblocking.  phi (Proofs/FileConcProgress.v) bounds the
    steps a process still needs for its current call; it depends on the file
    and on the process's own locals only, never on another process's program
    point, so a killed process holds nothing anybody waits for.
    progress f' t t' b := the call completed (fewer calls remain) or
    (same calls remain and phi f' t' < b). *)
-Theorem C04_nonblocking : forall bucket nlen H,
-  (forall nm, 1 <= nlen nm) ->
-  forall st0 sched, init_ok bucket nlen H st0 ->
+Theorem C04_nonblocking : forall bucket nlen H st0 sched, init_ok bucket nlen H st0 ->
   let st := run bucket nlen H sched st0 in
   forall i t, nth_error (snd st) i = Some t ->
   (t_pc t <> Done ->
@@ -162,24 +158,29 @@ Theorem C04_nonblocking : forall bucket nlen H,
 Proof. exact nonblocking. Qed.
 Print Assumptions C04_nonblocking.
 
-(* the empty counter name (known finding, class empty-name): one process
-   links a record whose length field reads 0; every later lookup in that
-   bucket fails (errCorrupt), here for a second, surviving, process *)
-Theorem C04_empty_name_refuted :
+(* the empty counter name (was the finding empty-name; fixed in /repo by
+   342cd17): newCounter("") fails with its own error class before anything
+   is read or written, like an over-long name; hence (C04_wf_always) every
+   linked record has a name of at least one byte, with no hypothesis on the
+   names the processes use *)
+Theorem C04_empty_name_rejected : forall (nlen : name -> N) nm ops t, nlen nm = 0 ->
+  dispatch nlen (OpNew nm :: ops) t = dispatch nlen ops (push_res (RFail FEmpty) (set_cell 0 t)).
+Proof. exact empty_name_rejected. Qed.
+Print Assumptions C04_empty_name_rejected.
+
+Example C04_empty_name_example :
+  results_of e_st0 0%nat = [RFail FEmpty] /\ pc_of e_st0 0%nat = Some Done /\
   let st := run w_bucket e_nlen w_H e_sched e_st0 in
-  results_of st 0%nat = [RCell 2176] /\ results_of st 1%nat = [RFail FLimitWithin] /\
+  results_of st 0%nat = [RFail FEmpty] /\ results_of st 1%nat = [RCell 2176] /\
   f_chain (fst st) 7 = [2176] /\
-  option_map r_name (find_rec 2176 (f_recs (fst st))) = Some 7 /\ e_nlen 7 = 0.
+  option_map r_name (find_rec 2176 (f_recs (fst st))) = Some 519 /\ e_nlen 7 = 0.
 Proof. exact e_run. Qed.
-Print Assumptions C04_empty_name_refuted.
 
 (* the executable oracles that the runner evaluates on the decoded REAL file
    bytes (wf_obsb: well-formedness; uniq_obsb: one record per name; both in
    Model/FileConc.v) hold of the view of every reachable model file: the
    oracle asks of the implementation no more than the theorems establish *)
-Theorem C04_oracle_accepts_reachable : forall bucket nlen H,
-  (forall nm, 1 <= nlen nm) ->
-  forall st0 sched, init_ok bucket nlen H st0 ->
+Theorem C04_oracle_accepts_reachable : forall bucket nlen H st0 sched, init_ok bucket nlen H st0 ->
   let f := fst (run bucket nlen H sched st0) in
   wf_obsb bucket nlen H false (obs_of f) = true /\ uniq_obsb (obs_of f) = true.
 Proof. exact oracle_accepts_reachable. Qed.
